@@ -304,7 +304,7 @@ LOOKUPS = ("get", "get_key_value", "contains_key", "contains")
 HELPERS = ("guard", "pin", "with_guard", "iter", "contains", "is_subset", "len", "is_empty", "guarded_eq", "eq", "deref")
 
 
-def rule_l6(ctx, facts):
+def rule_l6(ctx, facts, rule="L6", only_ops=None):
     for b in facts.bodies:
         if b.kind == "Closure" or not b.impl or b.impl.get("trait"):
             continue
@@ -313,7 +313,7 @@ def rule_l6(ctx, facts):
             continue
         wrapped, field = WRAPPED[head]
         want = RENAMES.get((head, b.name), b.name)
-        if want not in OPS:
+        if want not in OPS or (only_ops is not None and want not in only_ops):
             continue
         fl = flow(b)
         delegates = []
@@ -342,11 +342,13 @@ def rule_l6(ctx, facts):
         if not exists:
             continue
         if len(delegates) >= 1 and not others:
-            ctx.inst("L6", b, "delegates to %s::%s" % (wrapped.rsplit("::", 1)[-1], want), b.span, True, "one delegation, no other map logic")
+            ctx.inst(rule, b, "delegates to %s::%s" % (wrapped.rsplit("::", 1)[-1], want), b.span, True, "one delegation, no other map logic")
         else:
-            ctx.inst("L6", b, "delegates to %s::%s" % (wrapped.rsplit("::", 1)[-1], want), b.span, False,
+            ctx.inst(rule, b, "delegates to %s::%s" % (wrapped.rsplit("::", 1)[-1], want), b.span, False,
                      "facade method does not reduce to the wrapped method: %d call(s) to %s::%s, other flurry calls: %s"
                      % (len(delegates), wrapped, want, [strip_generics(t.id) for _, _, t in others][:4]))
+    if only_ops is not None:
+        return
         # guard pairing inside two-collection relations
     for b in facts.bodies:
         if b.kind == "Closure" or not b.impl or b.impl["self_head"] not in ("set::HashSet", "set_ref::HashSetRef", "map::HashMap", "map_ref::HashMapRef"):
